@@ -431,7 +431,14 @@ func checkC07(c *Check) {
 	}
 	// Go randomises map iteration order: a range over a map may be left early only if the body has had no
 	// effect (otherwise which entries were processed depends on the order)
-	for _, fn := range routingFuncs(p) {
+	orderFns := append([]*ssa.Function{}, routingFuncs(p)...)
+	// … and the registration-time functions that build the tables a request is decided by
+	for _, f := range []*ssa.Function{p.Fn("route", "NewHeaderMatcher"), p.Meth("flamego", "Route", "Headers"), p.Meth("flamego", "router", "addRoute")} {
+		if f != nil {
+			orderFns = append(orderFns, f)
+		}
+	}
+	for _, fn := range orderFns {
 		for _, why := range orderDependentMapLoops(fn) {
 			nb++
 			c.Bad(p.FuncKey(fn)+":map-order-dependent", p.FuncPos(fn), why)
@@ -1383,6 +1390,25 @@ func orderDependentMapLoops(fn *ssa.Function) []string {
 				return callName(y.Common()) == "builtin.delete"
 			}
 			return false
+		}
+		// re-keying: entries copied into another map under a key computed from the range key (canonicalised,
+		// trimmed, lower-cased): two entries can collide, and which one survives depends on the iteration order
+		rk := vExtract(1, vIs(next))
+		for e := range more {
+			(Query{Fn: fn, Avoid: isInstr(next)}).Reach(e.B.Succs[e.S], 0, func(x ssa.Instruction) bool {
+				mu, isMU := x.(*ssa.MapUpdate)
+				if !isMU || strip(mu.Map) == strip(rg.X) {
+					return false
+				}
+				if rk(mu.Key) || !derivesFrom(mu.Key, rk, nil) {
+					return false
+				}
+				if _, isC := strip(mu.Value).(*ssa.Const); isC {
+					return false
+				}
+				out = append(out, "entries of a map are copied into another map under a key computed from the original key ("+vstr(mu.Key)+"): two entries whose computed keys collide overwrite each other in map iteration order, so identically configured applications decide differently")
+				return false
+			})
 		}
 		hasEffect := false
 		for e := range more {
